@@ -1,6 +1,6 @@
 (* C02 - notify delivers every payload intact.  The slot formula is GENERATED from its four copies in sc_notify.c. *)
 From Coq Require Import ZArith List Bool Permutation.
-From ScV Require Import Base.CInt Gen.NotifyC01 C02.SlotProofs C02.PayloadModel.
+From ScV Require Import Base.CInt Gen.NotifyC01 C02.SlotProofs C02.PayloadModel C01.MergeModel C01.MergeProofs C01.MergeCorr.
 Import ListNotations.
 Local Open Scope Z_scope.
 
@@ -45,3 +45,28 @@ Print Assumptions C02_sort_keeps_pairs.
 
 Example C02_nonvacuous : slots_ok (npay_nary 1 5) 5 /\ npay_nary 1 5 = 2 /\ npay_pex 1 13 = 4 /\ out_offsets [2; 0; 3] = [0; 2; 2; 5].
 Proof. repeat split; vm_compute; congruence || reflexivity. Qed.
+
+(* ---- payload ints travel with their sender through sc_notify_merge ----------------------------------------
+   (t, (f, pay)) in pairs rs: the record array rs holds the notification of sender f for destination t with the
+   payload ints pay.  No hypothesis on the operands. *)
+Theorem C02_merge_keeps_payload : forall a b t f pay,
+  In (t, (f, pay)) (pairs (rmerge a b)) <-> In (t, (f, pay)) (pairs a) \/ In (t, (f, pay)) (pairs b).
+Proof. intros a b t f pay. exact (rmerge_pairs_In a b (t, (f, pay))). Qed.
+Print Assumptions C02_merge_keeps_payload.
+
+(* every sender entry keeps its npay slots (the record stride is preserved) *)
+Theorem C02_merge_keeps_stride : forall n a b, wfpay n a -> wfpay n b -> wfpay n (rmerge a b).
+Proof. exact rmerge_wfpay. Qed.
+Print Assumptions C02_merge_keeps_stride.
+
+(* the int-level model of sc_notify_merge (tied to the C function on every run) realises that merge for every
+   number of payload ints per sender *)
+Theorem C02_merge_model : forall n a b, wfpay n a -> wfpay n b ->
+  notify_merge (Z.of_nat n) (encode a) (encode b) = encode (rmerge (live a) b).
+Proof. exact notify_merge_encode. Qed.
+Print Assumptions C02_merge_model.
+
+Example C02_merge_nonvacuous :
+  notify_merge 2 (encode [(4, [(1, [10; 11]); (6, [60; 61])])]) (encode [(4, [(3, [30; 31])]); (5, [(0, [7; 8])])])
+  = [4; 3; 1; 10; 11; 3; 30; 31; 6; 60; 61; 5; 1; 0; 7; 8].
+Proof. vm_compute. reflexivity. Qed.
